@@ -126,14 +126,14 @@ def _numty(ci):
     m = re.match(_NUM_RE, ci.name)
     return sym.INT_TYPES[m.group(1)]
 
-def _arith(opname):
-    return {'add': sym.add, 'sub': sym.sub, 'mul': sym.mul}[opname]
+def _arith(opname, m=None):
+    return {'add': sym.add, 'sub': sym.sub, 'mul': (m.mul if m is not None else sym.mul)}[opname]
 
 @I.rx(_NUM_RE + r'checked_(add|sub|mul)$')
 def _checked(m, args, ci):
     ty = _numty(ci)
     op = re.search(r'checked_(\w+)$', ci.name).group(1)
-    exact = _arith(op)(args[0], args[1])
+    exact = _arith(op, m)(args[0], args[1])
     if m.branch(sym.out_of_range(exact, ty), 'checked_' + op):
         return none()
     return some(exact)
@@ -142,20 +142,20 @@ def _checked(m, args, ci):
 def _saturating(m, args, ci):
     ty = _numty(ci)
     op = re.search(r'saturating_(\w+)$', ci.name).group(1)
-    exact = _arith(op)(args[0], args[1])
+    exact = _arith(op, m)(args[0], args[1])
     return sym.ite(sym.gt(exact, ty.hi), ty.hi, sym.ite(sym.lt(exact, ty.lo), ty.lo, exact))
 
 @I.rx(_NUM_RE + r'wrapping_(add|sub|mul)$')
 def _wrapping(m, args, ci):
     ty = _numty(ci)
     op = re.search(r'wrapping_(\w+)$', ci.name).group(1)
-    return sym.wrap(_arith(op)(args[0], args[1]), ty, 1 if op != 'mul' else None)
+    return sym.wrap(_arith(op, m)(args[0], args[1]), ty, 1 if op != 'mul' else None)
 
 @I.rx(_NUM_RE + r'overflowing_(add|sub|mul)$')
 def _overflowing(m, args, ci):
     ty = _numty(ci)
     op = re.search(r'overflowing_(\w+)$', ci.name).group(1)
-    exact = _arith(op)(args[0], args[1])
+    exact = _arith(op, m)(args[0], args[1])
     return tuple_(sym.wrap(exact, ty, 1 if op != 'mul' else None), sym.out_of_range(exact, ty))
 
 @I.rx(_NUM_RE + r'checked_(div|rem)$')
@@ -182,7 +182,7 @@ def _to_be_bytes(m, args, ci):
     out = []
     if isinstance(v, T):
         # bytes b_i with v = sum b_i * 256^(n-1-i): fresh vars tied by one equation
-        bs = [sym.fresh('be') for _ in range(n)]
+        bs = [m.fresh('be') for _ in range(n)]
         total = 0
         for b in bs:
             m.pc.append(sym.and_(sym.le(0, b), sym.le(b, 255)))
@@ -285,6 +285,9 @@ def _int_try(m, args, ci):
         target = sym.INT_TYPES.get(mm.group(1)) if mm else None
     if target is None:
         body = m.prog.resolve_fn(ci.raw)
+        if body is None and kind == 'TryInto':
+            # blanket impl<T, U: TryFrom<T>> TryInto<U> for T
+            body = m.prog.keys.get('<%s as TryFrom>::try_from' % last_seg(type_head(b)))
         if body is not None:
             return m.call_body(body, args)
         raise Unsupported('try_from between ' + ci.raw)
